@@ -173,6 +173,7 @@ package protocol
 //@   callback send:recvQueueChan requires accounted: len(p.pendingRecvSizes) >= 1 && p.pendingRecvSizes[len(p.pendingRecvSizes)-1] == msgLen && msgLen == len(msgData)
 //@   callback send:recvQueueChan requires bounded: limit > 0 ==> msgLen <= limit && p.pendingRecvBytes <= limit
 //@   callback send:recvQueueChan requires fromcodec: arg0 == msg && msg != nil
+//@   callback call:time.After requires waitsonlyover: limit > 0 && p.pendingRecvBytes + msgLen > limit
 //@   callback MessageFromCborFunc requires front: arg1 == subslice(bufdata(readBuffer), 0, numBytesRead) && numBytesRead > 0 && numBytesRead <= len(bufdata(readBuffer))
 //@   callback call:bytes.NewBuffer requires rest: ifbound(numBytesRead, arg0 == subslice(bufdata(readBuffer), numBytesRead, len(bufdata(readBuffer))) && numBytesRead < len(bufdata(readBuffer)))
 //@   callback call:Reset requires consumed: numBytesRead == len(bufdata(readBuffer))
